@@ -18,6 +18,7 @@ import vlib
 from vlib import hexs
 from checks import c09 as gen9
 import uper_streams
+import consts_stream
 
 I64_MIN = -(2 ** 63)
 I64_MAX = 2 ** 63 - 1
@@ -528,15 +529,18 @@ class AttrStream(runner.Stream):
 
 class Spec(runner.Spec):
     prop = "C08"
-    streams = [AttrStream(), uper_streams.DescConsistency()]
+    # Props/C08Consts.lean: the descriptor constants of the macro expansion, from the source type
+    extra_prop_files = ["C08Consts"]
+    streams = [AttrStream(), uper_streams.DescConsistency(), consts_stream.ConstsFromSource()]
     assumptions = [
         "text -> token tree is proc_macro2's lexer (trusted, checked by `attr print`: the real text is lexed by proc_macro2 and compared token by token with the model printer)",
         "only the attribute language of struct fields / tuple structs / CHOICE variants is modelled (type, tag, const); the definition header (`sequence`, `choice`, tag, extensible_after) and `Model<Rust>` <-> `asn::Type` conversion (`into_asn`, `convert_asn_to_rust`) are exercised by `attr reparse` on the real code only",
-        "descriptor constants of the macro expansion (`consts_match`) are not modelled here",
+        "descriptor constants of the macro expansion: Codegen/ConstsModel.lean starts behind the parser (asn::Type with the recorded marker index and Size) and ignores names, tags, SET sorting and the printing of DEFAULT literals; tied by stream `consts` on the compiled zoo only",
         "string literals without characters that need escaping in Rust source",
     ]
     trusted_base = [
         "Lean 4.33 kernel; axioms per theorem listed under coverage.theorems (allowed: propext, Classical.choice, Quot.sound)",
         "hand-written mirror Codegen/Attr.lean of generate/rust.rs (asn_attribute*) and proc_macro/{attribute,range,size,tag,constants}.rs — tied by stream `attr` (print, prt, rt)",
         "harness/src/attr.rs (spec <-> RustType/asn::Type, canonical token rendering), Driver/AttrStream.lean (spec parser, attribute lexer), tools/checks/c08.py, syn 2.0.48 / proc-macro2 1.0.76",
+        "hand-written mirror Codegen/ConstsModel.lean of rust.rs (convert_asn_to_rust), proc_macro/range.rs and generate/walker.rs (constant expressions) — tied by stream `consts`: tools/consts_stream.py (parser of harness/zoo/*.asn1, Python expectation, evaluation of the model through the generated .work/ConstsZoo.lean), harness/src/dynval.rs TyGen",
     ]
